@@ -241,6 +241,68 @@ def check_multi(case: typing.Any, ctx: Ctx) -> Info:
     return Info(nontrivial, classes, sample=where)
 
 
+def check_reroot(case: typing.Any, ctx: Ctx) -> Info:
+    """The same directory read several times in one process, each time with the root namespace designated at another ancestor
+    level (x/outer as the root: outer.inner.Foo; x/outer/inner as the root: inner.Foo).  Every call answers for its own root:
+    nothing remembered from an earlier call may show in name or source_file_path_to_root."""
+    import pydsdl
+
+    d = ctx.scratch()
+    try:
+        dirs = list(case["dirs"])
+        port = "" if case["port"] is None else "%d." % case["port"]
+        fn = "%s%s.%d.%d.dsdl" % (port, case["short"], case["version"][0], case["version"][1])
+        leaf = os.path.join(d, "x", *dirs)
+        os.makedirs(leaf)
+        file_abs = os.path.join(leaf, fn)
+        text = "@sealed\n" + ("---\n@sealed\n" if case["service"] else "")
+        with open(file_abs, "w") as f:
+            f.write(text)
+        with open(os.path.join(leaf, "Sibling.1.0.dsdl"), "w") as f:
+            f.write("@sealed\n")
+        log = []
+        for step in case["reads"]:
+            level = step["level"] % len(dirs)
+            root_abs = os.path.join(d, "x", *dirs[: level + 1])
+            want = {
+                "full_name": ".".join(dirs[level:] + [case["short"]]),
+                "version": tuple(case["version"]),
+                "port": case["port"],
+                "file": os.path.realpath(file_abs),
+                "root": os.path.realpath(root_abs),
+            }
+            api = step["api"] % 3
+            where = "x/%s/%s read #%d with root x/%s via %s (earlier: %s)" % ("/".join(dirs), fn, len(log) + 1, "/".join(dirs[: level + 1]), ["read_namespace", "read_files", "read_files:bare-name"][api], log)
+            if api == 0:
+                res, _ = guarded(pydsdl.read_namespace, root_abs, [], None, True, what="read_namespace:reroot")
+                mine = [t for t in res if t.short_name == case["short"]]
+            else:
+                roots = [root_abs] if api == 1 else [dirs[level]]
+                if api == 2 and dirs[level] in dirs[:level]:
+                    roots = [root_abs]  # (a bare name that also names an outer directory designates the outer one)
+                (direct, _t), _ = guarded(pydsdl.read_files, [file_abs], roots, None, None, True, what="read_files:reroot")
+                mine = list(direct)
+            require(len(mine) == 1, "reroot:result-size", 1, [str(t) for t in mine], where)
+            t = mine[0]
+            got = {
+                "full_name": t.full_name,
+                "version": (t.version.major, t.version.minor),
+                "port": t.fixed_port_id,
+                "file": os.path.realpath(str(t.source_file_path)),
+                "root": os.path.realpath(str(t.source_file_path_to_root)),
+            }
+            for key in ("full_name", "version", "port", "file", "root"):
+                require(got[key] == want[key], "identity:%s:after-another-root" % key if log else "identity:" + key, want[key], got[key], where)
+            if case["service"]:
+                for part in (t.request_type, t.response_type):
+                    require(os.path.realpath(str(part.source_file_path_to_root)) == want["root"], "identity:root:service-part", want["root"], str(part.source_file_path_to_root), where)
+            log.append("x/" + "/".join(dirs[: level + 1]))
+    finally:
+        ctx.cleanup(d)
+    levels = {s_["level"] % len(case["dirs"]) for s_ in case["reads"]}
+    return Info(len(levels) >= 2, ["reroot", "levels:%d" % len(levels), "reads:%d" % len(case["reads"]), "depth:%d" % len(case["dirs"])], sample={"dirs": case["dirs"], "reads": case["reads"]})
+
+
 MALFORMED = [
     "Foo.dsdl", "Foo.1.dsdl", "a.Foo.1.0.dsdl", "1.2.Foo.1.0.dsdl", "Foo.x.0.dsdl", "Foo.1.y.dsdl", "x.Foo.1.0.dsdl", "Foo.1.0.0.0.dsdl", "Foo..1.dsdl",
     "Foo.1.0.uavcan.dsdl", "1.0.dsdl", "Foo.-1.0.dsdl", "Foo.1.-1.dsdl", "Foo.256.0.dsdl", "Foo.0.0.dsdl", "9999.Foo.1.0.dsdl", "-1.Foo.1.0.dsdl", "1.5.Foo.1.0.dsdl",
@@ -308,4 +370,14 @@ def parts(ctx: Ctx) -> typing.List[Part]:
             "reverse_targets": st.booleans(),
         }
     )
-    return [Part("identity", ident, check_identity, weight=4), Part("multi", multi, check_multi, weight=2), Part("malformed", malformed, check_malformed, weight=1)]
+    reroot = st.fixed_dictionaries(
+        {
+            "dirs": st.lists(st.sampled_from(NAMES + SUBS), min_size=2, max_size=4),
+            "short": st.sampled_from(SHORTS),
+            "version": st.tuples(st.sampled_from([0, 1, 2, 255]), st.sampled_from([1, 7, 255])).map(list),
+            "port": st.one_of(st.none(), st.sampled_from([0, 255, 7000])),
+            "service": st.booleans(),
+            "reads": st.lists(st.fixed_dictionaries({"level": st.integers(0, 3), "api": st.integers(0, 2)}), min_size=2, max_size=4),
+        }
+    ).filter(lambda c: c["port"] is None or (c["port"] <= 511 if c["service"] else True))
+    return [Part("identity", ident, check_identity, weight=4), Part("multi", multi, check_multi, weight=2), Part("reroot", reroot, check_reroot, weight=2), Part("malformed", malformed, check_malformed, weight=1)]
